@@ -106,8 +106,9 @@ def expectedSites : List (Str × LockClass) :=
     ("_store_hashstore_refs_files".toList, .refPid), ("_store_hashstore_refs_files".toList, .cid),
     ("_delete_object_only".toList, .cid) ]
 
-/-- a claim is released on every exit: by the `finally` of a `try` it lies in, or of the `try`
-    that is the very next statement -/
+/-- a claim is released on every exit, and nothing is released that was not claimed: the matching
+    release stands in the `finally` of a `try` at whose head the claim stands (only claims, logging,
+    message strings and path computations before it), or of the `try` that is the very next statement -/
 def siteGuarded (s : Str × Str × Str × Str) : Bool :=
   s.2.2.2 = "finally-of-enclosing-try".toList ∨ s.2.2.2 = "finally-of-next-try".toList
 
